@@ -71,6 +71,7 @@ func (c12) Plan(tier string) []fw.Unit {
 		{Check: "C12", Kind: "compound", Tier: tier, Spec: fw.Spec(enumSpec{Shard: 1, Shards: 4})},
 		{Check: "C12", Kind: "compound", Tier: tier, Spec: fw.Spec(enumSpec{Shard: 2, Shards: 4})},
 		{Check: "C12", Kind: "compound", Tier: tier, Spec: fw.Spec(enumSpec{Shard: 3, Shards: 4})},
+		{Check: "C12", Kind: "mixed", Tier: tier, Spec: fw.Spec(enumSpec{})},
 		{Check: "C12", Kind: "where", Tier: tier, Spec: fw.Spec(enumSpec{})},
 		{Check: "C12", Kind: "seams", Tier: tier, Spec: fw.Spec(enumSpec{})},
 	}
@@ -208,6 +209,48 @@ func (c12) Run(u fw.Unit) fw.Result {
 			}
 		}
 		a.sample(map[string]any{"shortcut": "x > 0 && y <= 'x'", "general": "(x > 0) && (y <= 'x')"})
+	case "mixed":
+		// chains mixing && and || without parentheses: && binds tighter; the flat-chain shortcut must either decline
+		// them or honour the precedence. General form: the same comparisons, fully parenthesised by precedence.
+		cmps := []string{"x > 0", "y <= 1", "z == 'x'", "x != 2", "y < 0", "z != 'x'"}
+		if u.Tier == "thorough" {
+			cmps = append(cmps, "x >= 9007199254740992", "y == 1", "z > ''")
+		}
+		xs := []int{0, 1, 3, 8, 22, 29, 36, 37} // int 0, int 1, int 2, 2^53+1, -0.5, 'x', NULL, missing
+		paren := func(c string) string { return "(" + c + ")" }
+		for _, c1 := range cmps {
+			for _, c2 := range cmps {
+				for _, c3 := range cmps {
+					forms := [][2]string{
+						{c1 + " && " + c2 + " || " + c3, "(" + paren(c1) + " && " + paren(c2) + ") || " + paren(c3)},
+						{c1 + " || " + c2 + " && " + c3, paren(c1) + " || (" + paren(c2) + " && " + paren(c3) + ")"},
+					}
+					if c1 < c2 { // four terms for half of the leading pairs
+						forms = append(forms,
+							[2]string{c1 + " && " + c2 + " || " + c3 + " && " + c1, "(" + paren(c1) + " && " + paren(c2) + ") || (" + paren(c3) + " && " + paren(c1) + ")"},
+							[2]string{c1 + " || " + c2 + " && " + c3 + " || " + c2, paren(c1) + " || (" + paren(c2) + " && " + paren(c3) + ") || " + paren(c2)})
+					}
+					for _, f := range forms {
+						for _, i := range xs {
+							for _, j := range xs {
+								for _, k := range []int{29, 0, 36, 37} {
+									vx, vy, vz := c12Values[i], c12Values[j], c12Values[k]
+									row := c12Row("x", vx)
+									if !vy.Miss {
+										row["y"] = vy.V
+									}
+									if !vz.Miss {
+										row["z"] = vz.V
+									}
+									cmp(f[0], f[1], row, "mixed-and-or", "x="+vx.Name+",y="+vy.Name+",z="+vz.Name, c12TypeClass(vx))
+								}
+							}
+						}
+					}
+				}
+			}
+		}
+		a.sample(map[string]any{"shortcut": "x > 0 && y <= 1 || z == 'x'", "general": "((x > 0) && (y <= 1)) || (z == 'x')"})
 	case "where":
 		// the decision through the public API: WHERE text vs its parenthesised form, same rows
 		jsonVals := []int{0, 1, 2, 8, 9, 21, 22, 25, 29, 30, 31, 34, 36, 37}
@@ -246,6 +289,30 @@ func (c12) Run(u fw.Unit) fw.Result {
 						a.fail(fmt.Sprintf("C12|where|decision-differs|value=%s", c12TypeClass(c12Values[jsonVals[k]])),
 							fmt.Sprintf("WHERE %s on %s: accepted=%v, parenthesised form accepted=%v", w, descs[k], acc1, acc2), map[string]any{"where": w, "row": descs[k]}, acc2, acc1)
 					}
+				}
+			}
+		}
+		// mixed AND/OR chains in SQL spelling (AND binds tighter)
+		for _, m := range [][2]string{
+			{"x > 0 AND x < 2 OR x = 2.5", "((x > 0) AND (x < 2)) OR (x = 2.5)"},
+			{"x = 1 OR x > 2 AND x < 0", "(x = 1) OR ((x > 2) AND (x < 0))"},
+			{"x = 'x' OR x != '1' AND x = ''", "(x = 'x') OR ((x != '1') AND (x = ''))"},
+			{"x < 0 AND x > 1 OR x >= 1 AND x <= 1", "((x < 0) AND (x > 1)) OR ((x >= 1) AND (x <= 1))"},
+			{"x = 2 OR x = 1 AND x = 2 OR x = -1", "(x = 2) OR ((x = 1) AND (x = 2)) OR (x = -1)"},
+		} {
+			r1, e1, st1, _ := syncEval("SELECT x FROM stream WHERE "+m[0], rows)
+			r2, e2, st2, _ := syncEval("SELECT x FROM stream WHERE "+m[1], rows)
+			a.r.Evaluations += int64(2 * len(rows))
+			if st1 != sched.StatusOK || st2 != sched.StatusOK || e1 != "" || e2 != "" {
+				a.fail("C12|where|mixed-abort", "WHERE "+m[0]+": "+e1+e2+st1.String()+"/"+st2.String(), map[string]any{"where": m[0]}, nil, nil)
+				continue
+			}
+			for k := range rows {
+				a.r.States++
+				a.r.Nontrivial++
+				if acc1, acc2 := r1[k].Row != nil, r2[k].Row != nil; acc1 != acc2 {
+					a.fail("C12|where|mixed-and-or|decision-differs", fmt.Sprintf("WHERE %s on %s: accepted=%v, WHERE %s accepted=%v", m[0], descs[k], acc1, m[1], acc2),
+						map[string]any{"where": m[0], "row": descs[k]}, acc2, acc1)
 				}
 			}
 		}
